@@ -30,6 +30,7 @@ def run(ch: Checker) -> None:
                      'len(parts) == 2, parts[0].lower() == b"basic", parts[1] == flags.auth_code (== or compare_digest on exactly these operands), '
                      'parts = split() of the header value; every other path raises ProxyAuthenticationFailed', 1)
     ch.rule('C08.2', 'FlagParser.initialize loads auth_plugins before requested_plugins; the auth plugin is added whenever basic_auth is set; auth_code = b64encode(bytes_(basic_auth))', 3)
+    ch.rule('C08.8', 'in on_request_complete no member that calls a hook of every plugin (do_intercept via _tls_intercept_enabled, ...) is evaluated before the before_upstream_connection chain -- where the auth plugin rejects -- has run over every plugin', 1)
     ch.rule('C08.3', 'before_upstream_connection chain: iterates all of self.plugins.values() with the hook called first in every iteration; an exception from the hook propagates out of '
                      'on_request_complete (no handler lets control reach connect_upstream or a normal return); connect_upstream is reached only after the loop ran to exhaustion; '
                      'only on_request_complete calls connect_upstream and only connect_upstream creates/acquires upstream connections', 4)
@@ -299,6 +300,7 @@ def run(ch: Checker) -> None:
 
     # ---------------- C08.3
     orc = prog.own_method('HttpProxyPlugin', 'on_request_complete')
+    hp_cls = prog.class_named('HttpProxyPlugin')
     go = cfg_of(orc, prog)
     hook = 'before_upstream_connection'
     loops = [n for n in go.nodes if n.kind == 'for' and any(isinstance(c, ast.Call) and isinstance(c.func, ast.Attribute) and c.func.attr == hook
@@ -339,6 +341,36 @@ def run(ch: Checker) -> None:
                     nxt = go.nodes[steps[i + 1][0]] if i + 1 < len(steps) else None
                     if nxt is None or nxt.ast is None or not any(isinstance(c, ast.Call) and isinstance(c.func, ast.Attribute) and c.func.attr == hook for c in walk_no_nested(nxt.ast)):
                         skipped = p.describe(20)
+        # C08.8: no other plugin hook before the chain has run over every plugin
+        hookers: Dict[str, str] = {}
+        for nm8, fn8 in list(hp_cls.methods.items()) + list(hp_cls.inlined_methods.items()):
+            for lp8 in walk_no_nested(fn8.node):
+                if isinstance(lp8, (ast.For, ast.AsyncFor)) and any(attr_chain(x) == 'self.plugins' for x in ast.walk(lp8.iter)):
+                    tv = [t.id for t in ast.walk(lp8.target) if isinstance(t, ast.Name)]
+                    called = [c8.func.attr for c8 in ast.walk(lp8) if isinstance(c8, ast.Call) and isinstance(c8.func, ast.Attribute) and isinstance(c8.func.value, ast.Name) and c8.func.value.id in tv]
+                    if called and nm8 != orc.name:
+                        hookers[nm8] = called[0]
+        early8 = None
+        n8 = 0
+        for p in fpaths(go):
+            steps = p.steps
+            inside8 = {id(x) for b8 in lp.ast.body for x in ast.walk(b8)}       # type: ignore[union-attr]   # the loop body; a for-else clause runs after the chain is exhausted
+            in_chain = [i for i, (nid, lab) in enumerate(steps) if nid == lp.id or (go.nodes[nid].ast is not None and id(go.nodes[nid].ast) in inside8)]
+            limit = (in_chain[-1] + 1) if in_chain else len(steps)     # the chain ends where control last leaves its loop (exhausted, or stopped by a plugin)
+            n8 += 1
+            for i, (nid, lab) in enumerate(steps[:limit]):
+                nd8 = go.nodes[nid]
+                if nd8.ast is None or nd8.kind not in ('stmt', 'test'):
+                    continue
+                for x in walk_no_nested(nd8.ast):
+                    if isinstance(x, ast.Attribute) and attr_chain(x.value) == 'self' and x.attr in hookers:
+                        early8 = ('self.%s (which calls %s() of every plugin) is evaluated before the before_upstream_connection chain has run: a request the auth plugin is about to reject '
+                                  'is shown to the other plugins first' % (x.attr, hookers[x.attr]), p.describe(16))
+                    if isinstance(x, ast.Call) and isinstance(x.func, ast.Attribute) and isinstance(x.func.value, ast.Name) and x.func.attr != hook and \
+                            x.func.value.id in [t.id for t in ast.walk(lp.ast.target) if isinstance(t, ast.Name)] and nid != lp.id:          # type: ignore[union-attr]
+                        early8 = ('plugin hook %s() is called inside / ahead of the before_upstream_connection chain' % x.func.attr, p.describe(16))
+        ch.check(early8 is None and n8 > 0, 'C08.8', orc, 'no hook before the chain', 'no other plugin hook runs before the chain has passed every plugin (%d path(s); hook-calling members: %s)' % (n8, ', '.join(sorted(hookers)) or 'none'),
+                 early8[0] if early8 else 'no path', witness=early8[1] if early8 else None)
         ch.check(esc is None, 'C08.3', orc, 'exception from %s' % hook, 'an exception raised by a before_upstream_connection hook always leaves on_request_complete',
                  'an exception raised by a before_upstream_connection hook (e.g. the auth failure, or any error inside the auth check) can be absorbed: control continues to '
                  'connect_upstream / a normal return, so the request is served without having passed the plugin', witness=esc)
